@@ -433,10 +433,107 @@ func asyncHistory(p *Profile, seed int64) []Op {
 	return g.ops
 }
 
+// goldenHistory: what the pinned release is asked to write for the golden corpus (C18).  The
+// configuration is taken from the low bits of the seed so that a run of 32 seeds covers every
+// combination; only calls that the pinned release handles correctly are used.
+func goldenHistory(p *Profile, seed int64) []Op {
+	g := &Gen{r: rand.New(rand.NewSource(seed)), p: p, usedK: map[int]bool{}}
+	r := g.r
+	g.cons = g.genCons()
+	bits := seed % 32
+	g.add(Op{Op: "open", Lower: bits&1 != 0})
+	c := Op{Op: "create", Cons: g.cons, Ext: ".json", Cache: bits&2 != 0, Gz: bits&4 != 0}
+	if bits&8 != 0 {
+		c.Ext = ".obj"
+	}
+	if bits&16 != 0 {
+		c.AThr, c.AMs = 1000, 3600*1000
+	}
+	g.add(c)
+	n := 8 + r.Intn(10)
+	for i := 0; i < n; i++ {
+		switch x := r.Intn(10); {
+		case x < 6:
+			sp := g.spec(g.pickK(55))
+			g.add(Op{Op: "ins", Spec: &sp})
+		case x < 8:
+			specs := []Spec{}
+			for j := 0; j < 1+r.Intn(3); j++ {
+				specs = append(specs, g.spec(g.pickK(70)))
+			}
+			g.add(Op{Op: "many", Specs: specs})
+		default:
+			g.add(Op{Op: "del", K: g.pickK(5)})
+		}
+	}
+	g.goldenSweep()
+	g.add(Op{Op: "close"})
+	g.add(Op{Op: "ls"})
+	return g.ops
+}
+
+func (g *Gen) goldenSweep() {
+	for k := 1; k <= g.p.MaxK+1; k++ {
+		if g.usedK[k] || k == g.p.MaxK+1 {
+			g.add(Op{Op: "get", K: k})
+		}
+	}
+	g.add(Op{Op: "count"})
+	g.add(Op{Op: "all"})
+	for _, l := range leaves {
+		if l.Cast != "-" {
+			g.add(Op{Op: "aidx", Field: l.Path})
+		}
+	}
+}
+
+// goldenContinuation: what the CURRENT code does on a copy of a golden directory.
+func goldenContinuation(p *Profile, seed int64, known []int) []Op {
+	g := &Gen{r: rand.New(rand.NewSource(seed)), p: p, usedK: map[int]bool{}}
+	for _, k := range known {
+		g.usedK[k] = true
+	}
+	r := g.r
+	g.add(Op{Op: "reopen"})
+	g.add(Op{Op: "count"})
+	g.add(Op{Op: "control"})
+	g.goldenSweep()
+	for _, k := range known {
+		g.add(Op{Op: "exist", K: k})
+		g.add(Op{Op: "disk", K: k})
+	}
+	g.add(Op{Op: "ls"})
+	g.searchSweep()
+	// further writes, then a restart
+	for i := 0; i < 8; i++ {
+		switch x := r.Intn(10); {
+		case x < 6:
+			sp := g.spec(g.pickK(50))
+			g.add(Op{Op: "ins", Spec: &sp})
+		case x < 8:
+			specs := []Spec{g.spec(g.pickK(70)), g.spec(g.pickK(70))}
+			g.add(Op{Op: "many", Specs: specs})
+		default:
+			g.add(Op{Op: "del", K: g.pickK(5)})
+		}
+	}
+	g.add(Op{Op: "close"})
+	g.add(Op{Op: "reopen"})
+	g.add(Op{Op: "count"})
+	g.add(Op{Op: "control"})
+	g.goldenSweep()
+	g.searchSweep()
+	g.add(Op{Op: "ls"})
+	return g.ops
+}
+
 // History generates one history for the profile.
 func History(p *Profile, seed int64) []Op {
 	if p.Name == "async" {
 		return asyncHistory(p, seed)
+	}
+	if p.Name == "golden" {
+		return goldenHistory(p, seed)
 	}
 	g := &Gen{r: rand.New(rand.NewSource(seed)), p: p, usedK: map[int]bool{}}
 	r := g.r
@@ -707,6 +804,9 @@ var profiles = map[string]*Profile{
 		Weights: map[string]int{"ins": 30, "many": 5, "bulk": 2, "del": 8, "search": 16, "refine": 10, "collect": 14, "exist": 6, "get": 4, "count": 2, "all": 2, "sdel": 2, "reopen": 4}},
 	// C10: asynchronous writes in real time (custom generator: asyncHistory)
 	"async": {Name: "async", Len: [2]int{1, 1}, MaxK: 6, PIndex: 40, PUnique: 0, PUpper: 10, PLower: 10, NoHostile: true,
+		Weights: map[string]int{"ins": 1}},
+	// C18: golden corpus written by the pinned release (custom generator: goldenHistory)
+	"golden": {Name: "golden", Len: [2]int{1, 1}, MaxK: 8, PIndex: 45, PUnique: 0, PUpper: 10, PLower: 10, Wide: true, NoHostile: true,
 		Weights: map[string]int{"ins": 1}},
 	// C18: layout
 	"layout": {Name: "layout", Len: [2]int{8, 30}, MaxK: 8, PIndex: 35, PUnique: 8, PUpper: 10, PLower: 10,
